@@ -35,7 +35,22 @@ def job_items():
     prog = st.one_of(gen_prog.programs(max_stmts=12, with_control=True), gen_macro.macro_programs(single_file=True, max_stmts=15, with_control=True))
     p_item = prog.map(lambda p: {"kind": "program", "prog": p})
     s_item = decomp.input_strategy(w1=1, w2=1, w3=2, max_stmts=12).map(lambda c: {"kind": "ssb", "case": c})
-    return st.one_of(p_item, s_item, s_item, p_item, s_item, s_item, deep_item())
+    return st.one_of(p_item, s_item, s_item, p_item, s_item, s_item, deep_item(), failing_item())
+
+
+def failing_item():
+    """a routine set on which convert() gives up inside a graph pass and takes the SsbScript fallback (a routine that
+    ends in a conditional branch): the failure path of one job runs while other jobs are in the middle of theirs"""
+    def mk(t):
+        c, r_i, v = t
+        c = dict(c, routines=[dict(r, ops=list(r["ops"])) for r in c["routines"]])
+        rs = [i for i, r in enumerate(c["routines"]) if r["ops"]]
+        if rs:
+            i = rs[r_i % len(rs)]
+            c["routines"][i]["ops"].append(["BranchBit", [{"c": f"$F_{v}"}, v % 8], [i, 0]])
+        return {"kind": "ssb", "failing": True, "repeat": 2 + v % 7, "case": c}
+
+    return st.tuples(gen_ssb.free_graphs(), st.integers(0, 9), st.integers(0, 99)).map(mk)
 
 
 def deep_item():
@@ -69,6 +84,19 @@ def make_job(item):
     c = results.input_ssb(item)
     if c is None:
         return None
+    n = int(item.get("repeat", 1))
+    if n > 1:
+        # a worker that handles several such files one after the other (each call on freshly built objects)
+        def several():
+            out = None
+            for _ in range(n):
+                r = results.decompile_result_nobudget(gen_ssb.build(c))
+                if out is not None and r != out:
+                    return {"repeat_differs": [out, r]}
+                out = r
+            return out
+
+        return several
     return lambda: results.decompile_result_nobudget(gen_ssb.build(c))
 
 
